@@ -5,6 +5,7 @@ time-outs (time dilation). See DESIGN.md 2.2 and appendix A.1.
 import hashlib
 import multiprocessing.process as mpp
 import multiprocessing.queues as mpq
+import multiprocessing.sharedctypes as msc
 import multiprocessing.synchronize as mps
 import os
 import random
@@ -14,7 +15,7 @@ from queue import Empty, Full
 from . import evlog
 
 SCALE = 0.02
-PROFILES = ["natural", "jitter", "straggler", "slow_dispatcher", "slow_feeder", "slow_workers", "late_start", "burst", "pct", "late_check", "stall", "slow_isset", "heavy_tail"]
+PROFILES = ["natural", "jitter", "straggler", "slow_dispatcher", "slow_feeder", "slow_workers", "late_start", "burst", "pct", "late_check", "stall", "slow_isset", "heavy_tail", "one_late"]
 
 _S = dict(installed=False, profile="natural", seed=0, scale=SCALE, qn=0, orig={}, stage_pid=None)
 _rng = [None, None]
@@ -62,7 +63,7 @@ def _role(q):
 def delay(point, role=None):
     """apply the delay profile at a hook point"""
     p = _S["profile"]
-    if p in ("natural", "burst", "straggler", "heavy_tail"):
+    if p in ("natural", "burst", "straggler", "heavy_tail") or (p == "one_late" and point != "run"):
         return
     r = rng()
     to = scaled_timeout()
@@ -81,6 +82,21 @@ def delay(point, role=None):
     elif p == "late_start":
         if point == "run":
             time.sleep(3 * to + 0.02 * r.random())
+    elif p == "one_late":
+        # ONE worker (the second or third that was started) begins to run only when its siblings are at work: it waits
+        # until the shared log shows two items received by others (logical, not wall-clock: robust on a loaded machine)
+        if point == "run" and _S.get("start_index") == 2 + _S["seed"] % 2:
+            t0 = time.time()
+            me = os.getpid()
+            while time.time() - t0 < 3.0:
+                try:
+                    n = sum(1 for e in evlog.read() if e["k"] == "get_ret" and e["pid"] != me and e.get("role") == "worker")
+                except OSError:
+                    break
+                if n >= 2:
+                    break
+                time.sleep(0.005)
+            time.sleep(to * 3 * r.random())
     elif p == "late_check":
         # a worker is descheduled between its receive time-out and its look at the shutdown flag; the producer is slow,
         # so that workers do time out while items are still to come
@@ -126,7 +142,7 @@ def cb_delay(pos, kind="walk"):
             time.sleep(scaled_timeout() * (1.5 + 3 * r.random()))
         else:
             time.sleep(r.random() * 0.002)
-    elif p in ("natural", "slow_dispatcher", "late_start", "stall", "slow_isset"):
+    elif p in ("natural", "slow_dispatcher", "late_start", "stall", "slow_isset", "one_late"):
         time.sleep(r.random() * 0.004)
     elif p == "slow_workers":
         time.sleep(0.005 + r.random() * 0.01)
@@ -160,7 +176,7 @@ def _q_put(self, obj, block=True, timeout=None):
 def _q_get(self, block=True, timeout=None):
     q = getattr(self, "_vq", 0)
     role = _role(self)
-    evlog.ev("get_call", q=q, role=role)
+    evlog.ev("get_call", q=q, role=role, to=(timeout if block else 0))
     delay("before_get", role)
     try:
         r = _S["orig"]["q_get"](self, block, None if timeout is None else timeout * _S["scale"])
@@ -210,6 +226,7 @@ def _p_run(self):
 
 
 def _p_start(self):
+    _S["start_index"] = _S.get("start_index", 0) + 1  # inherited by the child: its position in the start order
     r = _S["orig"]["p_start"](self)
     evlog.ev("proc_start", child=self.pid)
     return r
@@ -248,8 +265,22 @@ def _e_is_set(self):
     return r
 
 
+def _sv_get(self):
+    v = _S["orig"]["sv_prop"].fget(self)
+    evlog.ev("shared_read", v=v if isinstance(v, (int, float)) else None)
+    if _S["profile"] != "natural" and mpp.current_process().name != "MainProcess":
+        # a worker is descheduled between reading a fork-shared value and acting on it (or writing it back)
+        time.sleep(0.004 + 0.012 * rng().random())
+    return v
+
+
+def _sv_set(self, value):
+    _S["orig"]["sv_prop"].fset(self, value)
+    evlog.ev("shared_write", v=value if isinstance(value, (int, float)) else None)
+
+
 def install(profile="natural", seed=0, scale=SCALE):
-    _S.update(profile=profile, seed=seed, scale=scale, qn=0)
+    _S.update(profile=profile, seed=seed, scale=scale, qn=0, start_index=0)
     for k in [k for k in _S if k.startswith("pct_") or k.startswith("stall_")]:
         del _S[k]
     if _S["installed"]:
@@ -259,7 +290,9 @@ def install(profile="natural", seed=0, scale=SCALE):
     o.update(
         q_init=Q.__init__, q_put=Q.put, q_get=Q.get, q_reset=Q._reset, q_close=Q.close, q_join_thread=Q.join_thread,
         p_run=mpp.BaseProcess.run, p_start=mpp.BaseProcess.start, p_join=mpp.BaseProcess.join, e_set=mps.Event.set, e_is_set=mps.Event.is_set,
+        sv_prop=msc.Synchronized.value,
     )
+    msc.Synchronized.value = property(_sv_get, _sv_set)
     Q.__init__ = _q_init
     Q.put = _q_put
     Q.get = _q_get
@@ -290,4 +323,5 @@ def uninstall():
     mpp.BaseProcess.join = o["p_join"]
     mps.Event.set = o["e_set"]
     mps.Event.is_set = o["e_is_set"]
+    msc.Synchronized.value = o["sv_prop"]
     _S["installed"] = False
